@@ -1,6 +1,6 @@
 import ast, z3
-from vf2.spec import *
-from vf2.idioms import is_call
+from vf.spec import *
+from vf.idioms import is_call
 Gt = Elem("Graph"); P = PairT(INT, INT); LP = ListT(P)
 ES = z3.Function("edge_seq", Gt.sort(), LP.sort())                           # G.edges(): fixed enumeration of an unmodified graph
 ORDER = z3.Function("order", Gt.sort(), z3.IntSort())
